@@ -154,8 +154,8 @@ class Recorder:
                     def __init__(self, *a, **k):
                         log.append((name, a, dict(k)))
                         super().__init__(*a, **k)
-                R.__name__ = real.__name__
-                R.__qualname__ = real.__qualname__
+                # (keep the subclass's own name: matplotlib looks artist classes up by name for its docstrings)
+                R.__name__ = R.__qualname__ = 'Recording' + real.__name__
                 return R
             setattr(mod, name, make(real, name))
         return self
@@ -385,19 +385,110 @@ def artist_kind(kind):
     return {'point': 'Line2D', 'text': 'Text'}.get(kind, 'Patch')
 
 
+NUMTYPES = ['pyfloat', 'pyfloat', 'pyfloat', 'pyint', 'pyint', 'int64', 'int32', 'int16', 'uint8', 'float32', 'float64']
+INT_DTYPES = {'pyint': (64, True), 'int64': (64, True), 'int32': (32, True), 'int16': (16, True), 'uint8': (8, False)}
+NP_TYPES = {'int64': np.int64, 'int32': np.int32, 'int16': np.int16, 'uint8': np.uint8, 'float32': np.float32, 'float64': np.float64}
+ORIGIN_TYPES = ['tuple', 'tuple', 'list', 'array', 'np_scalars']
+
+
 def gen_origin(rng, d):
-    m = rng.random()
+    """plot origins: zero, integers, half-integers, dyadic and generic fractions, negative values,
+    near the shape and far away; x != y except for the (0, 0) default."""
     cc = G.approx_center(d)
     size = G.approx_size(d)
-    if m < 0.2:
-        return [0, 0]
-    if m < 0.3:
-        return [rng.randint(-50, 50), rng.randint(-50, 50)]
-    if m < 0.6:
-        return [cc[0] + rng.uniform(-3, 3) * size, cc[1] + rng.uniform(-3, 3) * size]
-    if m < 0.8:
-        return [rng.uniform(-100, 100), rng.uniform(-100, 100)]
-    return [rng.uniform(-1e6, 1e6), rng.uniform(-1e6, 1e6)]
+    while True:
+        m = rng.random()
+        if m < 0.1:
+            return [0, 0]
+        if m < 0.3:
+            k = rng.choice([5, 50, 300])
+            o = [rng.randint(-k, k), rng.randint(-k, k)]
+        elif m < 0.45:
+            o = [rng.randint(-40, 40) + 0.5, rng.randint(-40, 40) + 0.5]
+        elif m < 0.58:
+            o = [rng.randint(-400, 400) / 8, rng.randint(-400, 400) / 8]
+        elif m < 0.65:
+            o = [rng.randint(-50, 50), rng.randint(-400, 400) / 8]          # one Python int, one float
+            rng.shuffle(o)
+        elif m < 0.8:
+            o = [cc[0] + rng.uniform(-3, 3) * size, cc[1] + rng.uniform(-3, 3) * size]
+        elif m < 0.9:
+            o = [rng.uniform(-100, 100), rng.uniform(-100, 100)]
+        else:
+            o = [rng.uniform(-1e6, 1e6), rng.uniform(-1e6, 1e6)]
+        if o[0] != o[1]:
+            return o
+
+
+def retype_desc(d, nt):
+    """make every coordinate / size of the description exactly representable in the numeric
+    type `nt` (the description stays the exact value the model sees)."""
+    if nt in ('pyfloat', 'float64') or d['kind'] == 'compound':
+        return d
+    d = dict(d)
+    if nt == 'float32':
+        cv = lambda v: float(np.float32(v))
+        sz = lambda v: max(float(np.float32(v)), float(np.float32(1e-30)))
+    else:
+        bits, signed = INT_DTYPES[nt]
+        hi = {8: 250, 16: 30000, 32: 2 * 10 ** 9, 64: 10 ** 12}[bits]
+
+        def cv(v):
+            n = int(round(v))
+            if not signed:
+                n = abs(n) % (hi + 1)
+            return float(max(-hi, min(hi, n)))
+        sz = lambda v: float(max(1, min(hi, int(round(v)))))
+    for key in ('c', 'a', 'b'):
+        if key in d and isinstance(d[key], list):
+            d[key] = [cv(d[key][0]), cv(d[key][1])]
+    if 'v' in d:
+        d['v'] = [[cv(p[0]), cv(p[1])] for p in d['v']]
+    for key in ('r', 'w', 'h', 'r1', 'w1', 'h1'):
+        if key in d:
+            d[key] = sz(d[key])
+    for inner, outer in (('r1', 'r2'), ('w1', 'w2'), ('h1', 'h2')):
+        if outer in d:
+            d[outer] = sz(d[outer])
+            if d[outer] <= d[inner]:
+                d[outer] = d[inner] + (1.0 if nt != 'float32' else max(1e-3, abs(d[inner])))
+                if nt == 'float32':
+                    d[outer] = float(np.float32(d[outer]))
+    return d
+
+
+def origin_pyint(case):
+    """per component: is it passed to the code as a Python int?"""
+    if case.get('origin_type', 'tuple') not in ('tuple', 'list'):
+        return [False, False]
+    return [isinstance(v, int) and not isinstance(v, bool) for v in case['origin']]
+
+
+def int_class(case):
+    """the input class of finding F182: integer vertex ARRAY of a polygon and a Python-int origin
+    component such that numpy's same-dtype subtraction overflows ('overflow': the Python int does not
+    fit the dtype) or wraps around ('wrap': a difference does not fit)."""
+    d = case.get('region', {})
+    nt = case.get('numtype', 'pyfloat')
+    if nt not in INT_DTYPES or nt == 'pyint' and d.get('kind') != 'polygon':
+        return None
+    bits, signed = INT_DTYPES[nt]
+    lo, hi = (-(1 << (bits - 1)), (1 << (bits - 1)) - 1) if signed else (0, (1 << bits) - 1)
+    if d.get('kind') in ('circle', 'circle_annulus'):
+        # F183: the radius is a numpy integer SCALAR of this dtype and matplotlib's Circle doubles it in that dtype
+        return 'radius_wrap' if 2 * max(d.get('r', 0), d.get('r2', 0)) > hi else None
+    if d.get('kind') != 'polygon':
+        return None
+    res = None
+    for i, isint in enumerate(origin_pyint(case)):
+        if not isint:
+            continue
+        o = case['origin'][i]
+        if not (lo <= o <= hi):
+            return 'overflow'
+        if any(not (lo <= int(p[i]) - o <= hi) for p in d['v']):
+            res = 'wrap'
+    return res
 
 
 # ------------------------------------------------------------------ building real objects
@@ -415,8 +506,51 @@ def build_visual(items):
     return v
 
 
+def build_typed(d, nt):
+    """the real region with every coordinate / size given in the numeric type `nt`."""
+    import astropy.units as u
+    from regions import (CircleAnnulusPixelRegion, CirclePixelRegion, EllipseAnnulusPixelRegion, EllipsePixelRegion,
+                         LinePixelRegion, PixCoord, PointPixelRegion, PolygonPixelRegion, RectangleAnnulusPixelRegion,
+                         RectanglePixelRegion, RegularPolygonPixelRegion, TextPixelRegion)
+    if nt == 'pyfloat' or d['kind'] == 'compound':
+        return G.build(d)
+    if nt == 'pyint':
+        S = lambda v: int(v)
+        A = lambda l: [int(v) for v in l]
+    else:
+        S = lambda v: NP_TYPES[nt](v)
+        A = lambda l: np.array(l, dtype=NP_TYPES[nt])
+    P = lambda p: PixCoord(S(p[0]), S(p[1]))
+    ANG = lambda a: a[0] * u.Unit(a[1])
+    m = G._meta(d)
+    k = d['kind']
+    if k == 'circle':
+        return CirclePixelRegion(P(d['c']), S(d['r']), meta=m)
+    if k == 'ellipse':
+        return EllipsePixelRegion(P(d['c']), S(d['w']), S(d['h']), angle=ANG(d['angle']), meta=m)
+    if k == 'rectangle':
+        return RectanglePixelRegion(P(d['c']), S(d['w']), S(d['h']), angle=ANG(d['angle']), meta=m)
+    if k == 'polygon':
+        return PolygonPixelRegion(PixCoord(A([p[0] for p in d['v']]), A([p[1] for p in d['v']])), meta=m)
+    if k == 'regular_polygon':
+        return RegularPolygonPixelRegion(P(d['c']), d['n'], S(d['r']), angle=ANG(d['angle']), meta=m)
+    if k == 'circle_annulus':
+        return CircleAnnulusPixelRegion(P(d['c']), S(d['r1']), S(d['r2']), meta=m)
+    if k == 'ellipse_annulus':
+        return EllipseAnnulusPixelRegion(P(d['c']), S(d['w1']), S(d['w2']), S(d['h1']), S(d['h2']), angle=ANG(d['angle']), meta=m)
+    if k == 'rectangle_annulus':
+        return RectangleAnnulusPixelRegion(P(d['c']), S(d['w1']), S(d['w2']), S(d['h1']), S(d['h2']), angle=ANG(d['angle']), meta=m)
+    if k == 'point':
+        return PointPixelRegion(P(d['c']), meta=m)
+    if k == 'text':
+        return TextPixelRegion(P(d['c']), d.get('text', 'label'), meta=m)
+    if k == 'line':
+        return LinePixelRegion(P(d['a']), P(d['b']), meta=m)
+    raise ValueError(k)
+
+
 def build_region(case):
-    reg = G.build(case['region'])
+    reg = build_typed(case['region'], case.get('numtype', 'pyfloat'))
     reg.visual = build_visual(case.get('visual', []))
     return reg
 
@@ -427,8 +561,21 @@ def origin_arg(case):
     if t == 'list':
         return list(o)
     if t == 'array':
-        return np.array(o)
+        return np.array(o)                      # int64 array for two ints, float64 otherwise
+    if t == 'np_scalars':
+        return tuple(np.int64(v) if isinstance(v, int) else np.float64(v) for v in o)
     return tuple(o)
+
+
+_AX = None
+
+
+def plot_axes():
+    global _AX
+    if _AX is None:
+        from matplotlib.figure import Figure
+        _AX = Figure().add_subplot(111)
+    return _AX
 
 
 def component_descs(d):
@@ -449,19 +596,40 @@ def deg_of(angle):
     return float((angle[0] * u.Unit(angle[1])).to('deg').value)
 
 
-def mpl_component_path(d, origin):
+def mpl_component_path(d, origin, nt='pyfloat'):
     """the transformed path of matplotlib's Circle/Ellipse for a component (matplotlib is a
-    parameter of the model): built here directly with matplotlib, not through `regions`."""
+    parameter of the model): built here directly with matplotlib, not through `regions`.  The sizes are
+    handed over in the numeric type the region stores (matplotlib doubles a Circle's radius in that type)."""
     import matplotlib.patches as mp
     ox, oy = origin
+    S = (lambda v: v) if nt in ('pyfloat',) else (lambda v: int(v)) if nt == 'pyint' else (lambda v: NP_TYPES[nt](v))
     if d['kind'] == 'circle':
-        p = mp.Circle((d['c'][0] - ox, d['c'][1] - oy), d['r'])
+        r = float(d['r']) if circle_radius_as_float() else S(d['r'])
+        p = mp.Circle((d['c'][0] - ox, d['c'][1] - oy), r)
     elif d['kind'] == 'ellipse':
-        p = mp.Ellipse((d['c'][0] - ox, d['c'][1] - oy), d['w'], d['h'], angle=deg_of(d['angle']))
+        p = mp.Ellipse((d['c'][0] - ox, d['c'][1] - oy), S(d['w']), S(d['h']), angle=deg_of(d['angle']))
     else:
         return None
     tp = p.get_transform().transform_path(p.get_path())
     return {'v': [[frac(F(v[0])), frac(F(v[1]))] for v in tp.vertices], 'c': [int(c) for c in tp.codes]}
+
+
+def _src(obj):
+    import inspect
+    return inspect.getsource(obj)
+
+
+def polygon_subtracts_in_float():
+    """does PolygonPixelRegion.as_artist form vertices - origin in float (proposed_fixes/F182.diff)?
+    Then the model's exact variant applies to integer vertex arrays as well."""
+    from regions import PolygonPixelRegion
+    return 'dtype=float' in _src(PolygonPixelRegion.as_artist)
+
+
+def circle_radius_as_float():
+    """does CirclePixelRegion.as_artist hand the radius to matplotlib as a float (proposed_fixes/F183.diff)?"""
+    from regions import CirclePixelRegion
+    return 'float(self.radius)' in _src(CirclePixelRegion.as_artist)
 
 
 def text_normalizes():
@@ -492,7 +660,9 @@ class Check(PropertyCheck):
     parallel = True
     rule = ('circle, ellipse, rectangle, polygon (simple and self-intersecting), regular polygon and the three annuli x sizes 1e-3..1e6 '
             'x centres to 1e6 x angles of any magnitude in deg/rad/arcmin/hourangle x include flag x plot origins (0,0) / integer / '
-            'near / far (1e6), given as tuple, list or array; point, line, text regions x positions x origins; concentric and '
+            'half-integer / dyadic / near / far (1e6) / negative, x != y, given as tuple, list, array or numpy scalars, through '
+            'as_artist() and plot(ax); coordinates, vertices and sizes given as Python float/int, numpy int64/int32/int16/uint8, '
+            'float32, float64 (the model sees the exact rational); point, line, text regions x positions x origins; concentric and '
             'non-concentric and/or/xor compounds; RegionBoundingBox.as_artist; visual dictionaries (as the DS9 reader builds them, '
             'user-built mpl-style, arbitrary valid keys) x caller kwargs incl. matplotlib aliases. Query points on a cloud scaled to '
             'the shape and at relative distances 1e-6..1e-1 from its boundary. Non-trivial = a shape case with at least one point '
@@ -512,6 +682,10 @@ class Check(PropertyCheck):
         'or fill=True on a point) are outside the property; they are counted in the bucket mpl_rejects_visual and only the '
         'constructor arguments are compared',
         'astropy unit conversion angle.to("deg") and np.cos/np.sin are parameters',
+        'numpy dtype arithmetic (NEP 50: integer array - Python int stays in the array dtype) is a parameter of the integer-polygon '
+        'model; float32 vertex arrays are compared within 2^-22*scale (rounding of the caller\'s own dtype)',
+        'every artist\'s geometry (centre / xy / width / height / angle / radius / vertices / path corners / arrow ends / text and '
+        'point position) is compared with the region\'s parameters minus the plot origin from first principles within 1e-9*scale',
     ]
     validated_only = [
         'that matplotlib\'s real patches have the documented meaning the model assumes (validated by the winding-number oracle on the '
@@ -537,9 +711,15 @@ class Check(PropertyCheck):
             else:
                 d = G.gen_simple(rng, kind=kind, scale=rng.choice([1.0, 5.0]), center_scale=rng.choice([0, 10, 100]))
             ak = artist_kind(kind)
+            nt = rng.choice(NUMTYPES)
+            if nt not in ('pyfloat', 'float64') and rng.random() < 0.7:
+                # typed coordinates: pixel-like magnitudes
+                d = G.gen_simple(rng, kind=kind, scale=rng.choice([3.0, 10.0, 40.0]), center_scale=rng.choice([0, 10, 100, 1e4]),
+                                 include=d.get('include'))
+            d = retype_desc(d, nt)
             npts = 0 if kind in G.EMPTY_KINDS else (24 if tier == 'quick' else 30)
-            cases.append({'kind': 'shape', 'region': d, 'origin': gen_origin(rng, d),
-                          'origin_type': rng.choice(['tuple', 'tuple', 'list', 'array']),
+            cases.append({'kind': 'shape', 'region': d, 'numtype': nt, 'origin': gen_origin(rng, d),
+                          'origin_type': rng.choice(ORIGIN_TYPES), 'via': rng.choice(['as_artist', 'as_artist', 'plot']),
                           'visual': gen_visual(rng, ak), 'caller': gen_caller(rng, ak),
                           'pts': [list(p) for p in query_points(rng, d, npts)]})
         n2 = 60 if tier == 'quick' else 1500
@@ -551,7 +731,8 @@ class Check(PropertyCheck):
                 b['c'] = list(a['c'])
             d = {'kind': 'compound', 'op': rng.choice(['xor', 'xor', 'xor', 'xor', 'and', 'or']), 'a': a, 'b': b, 'include': 'absent'}
             big = a if G.approx_size(a) > G.approx_size(b) else b
-            cases.append({'kind': 'compound', 'region': d, 'origin': gen_origin(rng, a), 'origin_type': 'tuple',
+            cases.append({'kind': 'compound', 'region': d, 'origin': gen_origin(rng, a), 'origin_type': rng.choice(ORIGIN_TYPES),
+                          'via': rng.choice(['as_artist', 'plot']),
                           'visual': gen_visual(rng, 'Patch') if rng.random() < 0.5 else [], 'caller': gen_caller(rng, 'Patch'),
                           'pts': [list(p) for p in query_points(rng, big, 20)]})
         n3 = 200 if tier == 'quick' else 6000
@@ -603,12 +784,21 @@ class Check(PropertyCheck):
         out['model_region'] = model_region(d, reg)
         origin = origin_arg(case)
         art = None
+        if case.get('via') == 'plot':
+            plot_axes()                          # created outside the recorder
         with Recorder() as rec:
             try:
-                art = reg.as_artist(origin=origin, **caller)
+                if case.get('via') == 'plot':
+                    art = reg.plot(origin=origin, ax=plot_axes(), **caller)
+                    out['in_axes'] = art.axes is plot_axes()
+                    art.remove()
+                else:
+                    art = reg.as_artist(origin=origin, **caller)
             except Exception as e:
                 out['exc'] = type(e).__name__
                 out['exc_msg'] = str(e)[:160]
+        if d['kind'] == 'polygon':
+            out['vertex_dtype'] = str(reg.vertices.x.dtype)
         # the top-level constructor call is the last one recorded (components of an annulus come first)
         expected_top = {'point': 'Line2D', 'text': 'Text', 'line': 'Arrow', 'circle': 'Circle', 'ellipse': 'Ellipse',
                         'rectangle': 'Rectangle', 'polygon': 'Polygon', 'regular_polygon': 'Polygon'}.get(d['kind'], 'PathPatch')
@@ -705,13 +895,21 @@ class Check(PropertyCheck):
         reg = build_region(case)
         req = {'op': 'c18.artist', 'region': model_region(d, reg), 'origin': [frac(F(case['origin'][0])), frac(F(case['origin'][1]))],
                'visual': canon_kw(reg.visual), 'caller': cv(case['caller']), 'text_normalize': text_normalizes()}
+        nt = case.get('numtype', 'pyfloat')
+        if d['kind'] == 'polygon' and nt in INT_DTYPES and not polygon_subtracts_in_float():
+            bits, signed = INT_DTYPES[nt]
+            req['vdtype'] = {'bits': bits, 'signed': signed}
+            req['v_int'] = [[int(p[0]), int(p[1])] for p in d['v']]
+            req['origin_pyint'] = origin_pyint(case)
         comps = component_descs(d)
         if comps:
             import matplotlib
             matplotlib.use('Agg')
             o = (float(case['origin'][0]), float(case['origin'][1]))
-            req['inner_path'] = mpl_component_path(comps[0], o)
-            req['outer_path'] = mpl_component_path(comps[1], o)
+            with warnings.catch_warnings():
+                warnings.simplefilter('ignore')
+                req['inner_path'] = mpl_component_path(comps[0], o, nt)
+                req['outer_path'] = mpl_component_path(comps[1], o, nt)
         return [req]
 
     def model(self, case, replies):
@@ -742,7 +940,13 @@ class Check(PropertyCheck):
             elif key == 'xy' and cls == 'Rectangle':
                 ok = cl(mv[0], rv[0]) and cl(mv[1], rv[1])
             elif key == 'xy' and cls == 'Polygon':
-                ok = len(mv) == len(rv) and all(ex(m[0], r[0]) and ex(m[1], r[1]) for m, r in zip(mv, rv))
+                if case.get('numtype') == 'float32':
+                    # float32 vertex array - origin may be formed in float32: the code's own rounding
+                    t32 = 2.0 ** -22 * (tol / 1e-9)
+                    cmpf = lambda m, r: abs(float(Q(m)) - float(r)) <= t32
+                else:
+                    cmpf = ex
+                ok = len(mv) == len(rv) and all(cmpf(m[0], r[0]) and cmpf(m[1], r[1]) for m, r in zip(mv, rv))
             elif key == 'xy':
                 ok = ex(mv[0], rv[0]) and ex(mv[1], rv[1])
             elif key == 'verts':
@@ -818,13 +1022,89 @@ class Check(PropertyCheck):
             b = max(b, CURVE_BAND)
         return b
 
+    # ------------------------------------------------------------------ geometry = region - origin
+    def _geometry(self, case, real, bad):
+        """every geometric attribute of the artist against the region's parameters minus the plot origin,
+        from first principles (exact rationals, independent 50-digit trigonometry); tolerance 1e-9*scale
+        (float32 vertex arrays: 2^-22*scale, the rounding of the caller's own dtype)."""
+        d = case['region']
+        k = d['kind']
+        a = real.get('attrs')
+        if not a:
+            return
+        Q = Fraction
+        ox, oy = Q(case['origin'][0]), Q(case['origin'][1])
+        tol = self._tol(case)
+        if case.get('numtype') == 'float32' and k == 'polygon':
+            tol = 2.0 ** -22 * (tol / 1e-9)
+        errs = []
+
+        def chk(name, got, exp, t=None):
+            if abs(float(got) - float(exp)) > (tol if t is None else t):
+                errs.append(f'{name}: artist {float(got)!r}, region - origin {float(exp)!r}')
+
+        def deg_exact(angle):
+            v = Q(angle[0])
+            return {'deg': v, 'arcmin': v / 60, 'hourangle': v * 15,
+                    'rad': v * 180 / Q(G.PI)}[angle[1]]
+        rel = lambda x: 1e-9 * max(1.0, abs(float(x)))
+        if k == 'circle':
+            chk('center.x', a['center'][0], Q(d['c'][0]) - ox); chk('center.y', a['center'][1], Q(d['c'][1]) - oy)
+            chk('radius', a['radius'], d['r'], rel(d['r']))
+        elif k == 'ellipse':
+            chk('center.x', a['center'][0], Q(d['c'][0]) - ox); chk('center.y', a['center'][1], Q(d['c'][1]) - oy)
+            chk('width', a['width'], d['w'], rel(d['w'])); chk('height', a['height'], d['h'], rel(d['h']))
+            dg = deg_exact(d['angle']); chk('angle', a['angle'], dg, rel(dg))
+        elif k == 'rectangle':
+            c, s_ = G.exact_dir(d['angle'])
+            w2, h2 = Q(d['w']) / 2, Q(d['h']) / 2
+            chk('xy.x', a['xy'][0], Q(d['c'][0]) - (w2 * c - h2 * s_) - ox)
+            chk('xy.y', a['xy'][1], Q(d['c'][1]) - (w2 * s_ + h2 * c) - oy)
+            chk('width', a['width'], d['w'], rel(d['w'])); chk('height', a['height'], d['h'], rel(d['h']))
+            dg = deg_exact(d['angle']); chk('angle', a['angle'], dg, rel(dg))
+            if a.get('rotation_point') != 'xy':
+                errs.append(f'rotation_point {a.get("rotation_point")!r}')
+        elif k in ('polygon', 'regular_polygon'):
+            vs = [(Q(p[0]), Q(p[1])) for p in d['v']] if k == 'polygon' else G.regular_vertices_exact(d)
+            xy = a['xy']
+            if not (len(xy) == len(vs) + 1 and xy[0] == xy[-1] or len(xy) == len(vs) and xy[0] == xy[-1]) or not a.get('closed'):
+                errs.append(f'{len(xy)} patch vertices (closed={a.get("closed")}) for {len(vs)} region vertices')
+            else:
+                for i, (v, g) in enumerate(zip(vs, xy)):
+                    chk(f'vertex[{i}].x', g[0], v[0] - ox); chk(f'vertex[{i}].y', g[1], v[1] - oy)
+        elif k in ANNULI:
+            V_ = np.array(a['verts'], dtype=float)
+            n = len(V_) // 2
+            for name, part in (('outer', V_[:n]), ('inner', V_[n:])):
+                # both outlines are point-symmetric about the centre
+                chk(f'{name} outline centre.x', 0.5 * (part[:, 0].min() + part[:, 0].max()), Q(d['c'][0]) - ox)
+                chk(f'{name} outline centre.y', 0.5 * (part[:, 1].min() + part[:, 1].max()), Q(d['c'][1]) - oy)
+            if k == 'circle_annulus':
+                chk('outer diameter', V_[:n, 0].max() - V_[:n, 0].min(), 2 * Q(d['r2']), tol + rel(d['r2']))
+                chk('inner diameter', V_[n:, 0].max() - V_[n:, 0].min(), 2 * Q(d['r1']), tol + rel(d['r1']))
+            if k == 'rectangle_annulus' and len(V_) == 10:
+                c, s_ = G.exact_dir(d['angle'])
+
+                def corners(w, h):
+                    w2, h2 = Q(w) / 2, Q(h) / 2
+                    return [(Q(d['c'][0]) + c * qa - s_ * qb - ox, Q(d['c'][1]) + s_ * qa + c * qb - oy)
+                            for qa, qb in ((-w2, -h2), (w2, -h2), (w2, h2), (-w2, h2))]
+                exp = corners(d['w2'], d['h2']) + [None] + list(reversed(corners(d['w1'], d['h1'])))
+                for i, e in enumerate(exp):
+                    if e is not None:
+                        chk(f'path vertex[{i}].x', V_[i, 0], e[0]); chk(f'path vertex[{i}].y', V_[i, 1], e[1])
+        if errs:
+            bad('patch_geometry_wrong', '; '.join(errs[:4]))
+
     def oracle(self, case, real):
         V = []
         kind = case['kind']
 
+        icls = int_class(case) if kind == 'shape' else None
+
         def bad(k, detail, **kw):
-            ctx = {x: case[x] for x in ('region', 'origin', 'origin_type', 'visual', 'caller', 'artist', 'box') if x in case}
-            V.append(dict(kind=k, detail=f'{detail} :: {ctx}', **kw))
+            ctx = {x: case[x] for x in ('region', 'numtype', 'origin', 'origin_type', 'via', 'visual', 'caller', 'artist', 'box') if x in case}
+            V.append(dict(kind=k, detail=f'{detail} :: {ctx}', int_class=icls, **kw))
         if kind == 'kwargs':
             # first principles: defaults <| visual <| caller, per key
             fin = {k: v for k, v in real['final_by_hand']}
@@ -858,7 +1138,8 @@ class Check(PropertyCheck):
                     return V                     # documented: unable to convert region to matplotlib artist
             alone = real.get('alone', {})
             if alone.get('bare') != 'ok':
-                bad('as_artist_raised', f'as_artist(origin) raised {alone.get("bare")} with empty visual and no keyword arguments')
+                bad('as_artist_raised', f'as_artist(origin) raised {alone.get("bare")} with empty visual and no keyword arguments',
+                    exc=alone.get('bare'))
             elif alone.get('visual_only') == 'ok' and alone.get('caller_only') == 'ok':
                 conflict = self._alias_conflict(case, real)
                 bad('caller_kwargs_rejected', f'as_artist raised {real["exc"]}: {real.get("exc_msg")} although matplotlib accepts the '
@@ -873,8 +1154,12 @@ class Check(PropertyCheck):
                    'line': 'Arrow', 'point': 'Line2D', 'text': 'Text'}.get(d['kind'], 'PathPatch')
         if real['cls'] != exp_cls or not real['cls_module'].startswith('matplotlib.'):
             bad('artist_class', f'{real["cls_module"]}.{real["cls"]} expected {exp_cls}')
+        if case.get('via') == 'plot' and not real.get('in_axes'):
+            bad('plot_artist_not_in_axes', 'plot() returned an artist that was not added to the given axes')
         tol = self._tol(case)
         near = lambda a, b: abs(a - b) <= tol
+        if kind == 'shape':
+            self._geometry(case, real, bad)
         if d['kind'] in ('point', 'text'):
             pos = [real['data'][0][0], real['data'][1][0]] if d['kind'] == 'point' else real['position']
             if d['kind'] == 'point' and (len(real['data'][0]) != 1 or len(real['data'][1]) != 1):
@@ -935,6 +1220,8 @@ class Check(PropertyCheck):
         return None
 
     def finding_match(self, finding, violation):
+        if finding['id'] in ('F182', 'F182b', 'F183'):
+            return self._finding_match_int(finding, violation)
         if finding.get('kind') != violation.get('kind'):
             return False
         if finding['id'] == 'F181':
@@ -942,6 +1229,19 @@ class Check(PropertyCheck):
                     and violation.get('alias_conflict') is not None)
         if finding['id'] == 'F181b':
             return violation.get('artist') == 'Text' and violation.get('alias_of') is not None
+        return False
+
+    def _finding_match_int(self, finding, violation):
+        if finding['id'] == 'F182':
+            return (violation.get('int_class') == 'wrap'
+                    and violation.get('kind') in ('patch_geometry_wrong', 'patch_differs_from_contains', 'patch_differs_from_spec'))
+        if finding['id'] == 'F183':
+            return (violation.get('int_class') == 'radius_wrap'
+                    and violation.get('kind') in ('patch_geometry_wrong', 'patch_differs_from_contains', 'patch_differs_from_spec',
+                                                  'annulus_areas', 'annulus_inner_not_reversed'))
+        if finding['id'] == 'F182b':
+            return (violation.get('int_class') == 'overflow' and violation.get('kind') == 'as_artist_raised'
+                    and violation.get('exc') == 'OverflowError')
         return False
 
     def nontrivial(self, case, real):
